@@ -202,17 +202,10 @@ Section Sound.
     - cbn in Hx, Hy. inversion Hx; inversion Hy; subst. apply (s_ltb_sound b Hb), H1.
     - apply (IH H2 a); assumption.
   Qed.
-  Definition rpoly (cs : list Z) (x : R) : R :=
-    rsum (map (fun kc => IZR (snd kc) * x ^ fst kc) (combine (seq 0 (length cs)) cs)).
-  Lemma s2r_poly cs x : s2r (s_poly b cs x) = rpoly cs (s2r x).
-  Proof.
-    unfold s_poly, rpoly. rewrite (s2r_sum b Hb), map_map. f_equal. apply map_ext. intros [k c]; cbn [fst snd].
-    rewrite (s2r_scale b), (s2r_pow b Hb). reflexivity.
-  Qed.
-  Theorem nodes1d_ok_sound p xs cs tn td : (0 < td)%Z -> nodes1d_ok b p xs cs tn td = true ->
+  Theorem nodes1d_ok_sound p xs tn td : (0 < td)%Z -> nodes1d_ok b p xs tn td = true ->
     length xs = S p /\ s2r (hd (1, 0)%Z xs) = 0 /\ s2r (last xs (0, 0)%Z) = 1 /\
     (forall a x y, nth_error xs a = Some x -> nth_error xs (S a) = Some y -> s2r x < s2r y) /\
-    (forall x, In x (interior xs) -> Rabs (rpoly cs (s2r x)) <= IZR tn / IZR td).
+    (forall a x y, nth_error xs a = Some x -> nth_error (rev xs) a = Some y -> Rabs (s2r x + s2r y - 1) <= IZR tn / IZR td).
   Proof.
     intros Htd H. unfold nodes1d_ok in H. rewrite !andb_true_iff in H. destruct H as [[[[Hl H0] H1] Hi] Hr].
     apply Nat.eqb_eq in Hl.
@@ -221,8 +214,13 @@ Section Sound.
       apply Rminus_diag_uniq. destruct (Req_dec (s2r u - s2r v) 0); [assumption|]. apply Rabs_pos_lt in H. lra. }
     split; [exact Hl|]. split; [rewrite (Hz _ _ H0); apply (s2r_Z b)|]. split; [rewrite (Hz _ _ H1); apply (s2r_Z b)|].
     split; [apply increasing_sound; exact Hi|].
-    rewrite forallb_forall in Hr. intros x Hin. specialize (Hr _ Hin).
-    apply (s_close_sound b Hb) in Hr; [|exact Htd]. rewrite s2r_poly, (s2r_Z b), Rminus_0_r in Hr. exact Hr.
+    rewrite forallb_forall in Hr. intros a x y Hx Hy.
+    assert (Hin : In (x, y) (combine xs (rev xs))).
+    { clear - Hx Hy. revert a Hx Hy. generalize (rev xs) as l'. induction xs as [|u l IH]; intros [|v l'] [|a] Hx Hy; cbn in *; try discriminate.
+      - inversion Hx; inversion Hy; subst; auto.
+      - right. eapply IH; eassumption. }
+    specialize (Hr _ Hin). cbn [fst snd] in Hr.
+    apply (s_close_sound b Hb) in Hr; [|exact Htd]. rewrite (s2r_add b Hb), (s2r_Z b) in Hr. exact Hr.
   Qed.
 End Sound.
 
